@@ -80,4 +80,81 @@ theorem pdQuantities_fields (Hd : Sym3 ℝ) (st zt s z : V3 ℝ) :
   simp only [pdQuantities, dot3_eq]
   trivial
 
+/-! ### strict positive definiteness -/
+
+/-- the Frobenius weight `t = μ‖W‖_F` of the primal–dual branch (copy of the model's expression) -/
+noncomputable def pdWeight (Hd : Sym3 ℝ) (st zt : V3 ℝ) (Q : PdQuantities ℝ) : ℝ :=
+  let three : ℝ := 3
+  let tmp0 := Hd.mul zt
+  let tmp : V3 ℝ := (Q.muT * st.1 - tmp0.1, Q.muT * st.2.1 - tmp0.2.1, Q.muT * st.2.2 - tmp0.2.2)
+  let W : Sym3 ℝ :=
+    ⟨Hd.d0 - (st.1 * st.1 / three + tmp.1 * tmp.1 / Q.de2),
+     Hd.d1 - (st.1 * st.2.1 / three + tmp.1 * tmp.2.1 / Q.de2),
+     Hd.d2 - (st.2.1 * st.2.1 / three + tmp.2.1 * tmp.2.1 / Q.de2),
+     Hd.d3 - (st.1 * st.2.2 / three + tmp.1 * tmp.2.2 / Q.de2),
+     Hd.d4 - (st.2.1 * st.2.2 / three + tmp.2.1 * tmp.2.2 / Q.de2),
+     Hd.d5 - (st.2.2 * st.2.2 / three + tmp.2.2 * tmp.2.2 / Q.de2)⟩
+  Q.mu * W.normFro
+
+theorem pdHs_eq_rank3' (Hd : Sym3 ℝ) (st zt s z : V3 ℝ) (Q : PdQuantities ℝ) :
+    pdHs Hd st zt s z Q =
+      rank3 s Q.ds (normalize3 (cross3 z zt)) Q.dotSz Q.dotDsz (pdWeight Hd st zt Q) := rfl
+
+/-- when the cross product does not vanish, `normalize` multiplies it by a non-zero factor -/
+theorem normalize3_smul_ne (v : V3 ℝ) (hv : v ≠ (0, 0, 0)) :
+    ∃ k : ℝ, k ≠ 0 ∧ normalize3 v = (k * v.1, k * v.2.1, k * v.2.2) := by
+  obtain ⟨v0, v1, v2⟩ := v
+  have hpos : 0 < v0 * v0 + v1 * v1 + v2 * v2 := by
+    by_contra hle
+    have h0 : v0 * v0 + v1 * v1 + v2 * v2 = 0 :=
+      le_antisymm (not_lt.mp hle) (by nlinarith [mul_self_nonneg v0, mul_self_nonneg v1, mul_self_nonneg v2])
+    have e0 : v0 = 0 := by nlinarith [mul_self_nonneg v0, mul_self_nonneg v1, mul_self_nonneg v2]
+    have e1 : v1 = 0 := by nlinarith [mul_self_nonneg v0, mul_self_nonneg v1, mul_self_nonneg v2]
+    have e2 : v2 = 0 := by nlinarith [mul_self_nonneg v0, mul_self_nonneg v1, mul_self_nonneg v2]
+    exact hv (by rw [e0, e1, e2])
+  have hs : 0 < Real.sqrt (v0 * v0 + v1 * v1 + v2 * v2) := Real.sqrt_pos.mpr hpos
+  unfold normalize3
+  simp only [dot3_eq, dotR, real_sqrt_eq]
+  rw [if_neg (by simpa using ne_of_gt hs)]
+  exact ⟨recip (Real.sqrt (v0 * v0 + v1 * v1 + v2 * v2)), by
+    unfold recip; exact one_div_ne_zero (ne_of_gt hs), by simp only [mul_comm]⟩
+
+/-- Cramer: three independent rows annihilating `x` force `x = 0` -/
+theorem eq_zero_of_dots (r1 r2 r3 x : V3 ℝ)
+    (hdet : dotR r1 (cross3 r2 r3) ≠ 0) (h1 : dotR r1 x = 0) (h2 : dotR r2 x = 0) (h3 : dotR r3 x = 0) :
+    x = (0, 0, 0) := by
+  obtain ⟨a0, a1, a2⟩ := r1
+  obtain ⟨b0, b1, b2⟩ := r2
+  obtain ⟨c0, c1, c2⟩ := r3
+  obtain ⟨x0, x1, x2⟩ := x
+  simp only [dotR, cross3] at *
+  have e0 : (a0 * (b1 * c2 - b2 * c1) + a1 * (b2 * c0 - b0 * c2) + a2 * (b0 * c1 - b1 * c0)) * x0 = 0 := by
+    linear_combination (b1 * c2 - b2 * c1) * h1 + (c1 * a2 - c2 * a1) * h2 + (a1 * b2 - a2 * b1) * h3
+  have e1 : (a0 * (b1 * c2 - b2 * c1) + a1 * (b2 * c0 - b0 * c2) + a2 * (b0 * c1 - b1 * c0)) * x1 = 0 := by
+    linear_combination (b2 * c0 - b0 * c2) * h1 + (c2 * a0 - c0 * a2) * h2 + (a2 * b0 - a0 * b2) * h3
+  have e2 : (a0 * (b1 * c2 - b2 * c1) + a1 * (b2 * c0 - b0 * c2) + a2 * (b0 * c1 - b1 * c0)) * x2 = 0 := by
+    linear_combination (b0 * c1 - b1 * c0) * h1 + (c0 * a1 - c1 * a0) * h2 + (a0 * b1 - a1 * b0) * h3
+  rw [(mul_eq_zero.mp e0).resolve_left hdet, (mul_eq_zero.mp e1).resolve_left hdet,
+    (mul_eq_zero.mp e2).resolve_left hdet]
+
+/-- Binet–Cauchy: `s · (δs × (z × zt)) = (s·z)(δs·zt) - (s·zt)(δs·z)` -/
+theorem det_binet (s ds z zt : V3 ℝ) :
+    dotR s (cross3 ds (cross3 z zt)) = dotR s z * dotR ds zt - dotR s zt * dotR ds z := by
+  unfold dotR cross3; ring
+
+/-- consequences of log-homogeneity `⟨st, z⟩ = -3` for the quantities of the branch:
+`⟨δs, z⟩ = 0` and `⟨δs, δz⟩ = μ ⟨δs, zt⟩` -/
+theorem pd_key (Hd : Sym3 ℝ) (st zt s z : V3 ℝ) (hst : dotR st z = -3) :
+    let Q := pdQuantities Hd st zt s z
+    dotR Q.ds z = 0 ∧ Q.dotDsz = Q.mu * dotR Q.ds zt ∧ Q.dotSz = 3 * Q.mu ∧ Q.dotSz = dotR s z := by
+  obtain ⟨s0, s1, s2⟩ := s
+  obtain ⟨z0, z1, z2⟩ := z
+  obtain ⟨st0, st1, st2⟩ := st
+  obtain ⟨zt0, zt1, zt2⟩ := zt
+  simp only [pdQuantities, dot3_eq, dotR] at *
+  refine ⟨?_, ?_, ?_, trivial⟩
+  · linear_combination (s0 * z0 + s1 * z1 + s2 * z2) / 3 * hst
+  · linear_combination (s0 * z0 + s1 * z1 + s2 * z2) / 3 * hst
+  · ring
+
 end Clarabel.Nonsym
